@@ -46,7 +46,10 @@ def stepLine (st : DState) (line : String) : DState × String :=
       | some (d, ans) => ({ st with aol := d }, ans)
       | none => (st, "bad-op")
     else if tok = "ks.load" then (st, (ksStep toks).getD "bad-op")
-    else if tok = "mon.c17" || tok = "mon.c17.f14" || tok = "mon.c20.kslock" then (st, "pass")
+    else if tok = "mon.c17" || tok = "mon.c17.f14" || tok = "mon.c20.kslock" || tok = "mon.c20.snapshots" ||
+        tok = "mon.c09.block" || tok = "mon.c09.genesis-spellings" || tok = "mon.c10.block" || tok = "mon.c19.upgrade" then
+      -- runtime monitors: the model's verdict is what the property demands (Properties/C09, C10, C19, C20)
+      (st, "pass")
     else if tok.startsWith "bank." || tok = "endblock" || tok = "mon.c07.inv" then
       match bankStep st.bank toks with
       | some (d, ans) => ({ st with bank := d }, ans)
